@@ -400,6 +400,46 @@ Proof.
     eapply (seq_loop_q (fun s x => exec fuel s x) l); [exact IH|exact H|exact Hu].
 Qed.
 
+(** * Fuel is only a bound: a run that returns keeps its result under any larger fuel *)
+Definition body_le (b1 b2 : St -> result) : Prop := forall s x, b1 s = Ok x -> b2 s = Ok x.
+
+Lemma repeat_loop_mono b1 b2 (Hb : body_le b1 b2) n : forall s acc x,
+  repeat_loop b1 n s acc = Ok x -> repeat_loop b2 n s acc = Ok x.
+Proof.
+  induction n as [|n IH]; intros s acc x H; simpl in *; auto.
+  destruct (b1 s) as [[s1 r1]| |] eqn:E; simpl in H; try discriminate.
+  rewrite (Hb _ _ E). simpl. destruct (can_stop r1); auto.
+Qed.
+
+Lemma saturate_loop_mono b1 b2 (Hb : body_le b1 b2) g : forall g' s acc x, g <= g' ->
+  saturate_loop b1 g s acc = Ok x -> saturate_loop b2 g' s acc = Ok x.
+Proof.
+  induction g as [|g IH]; intros g' s acc x Hg H; simpl in H; [discriminate|].
+  destruct g' as [|g']; [lia|]. simpl.
+  destruct (b1 s) as [[s1 r1]| |] eqn:E; simpl in H; try discriminate.
+  rewrite (Hb _ _ E). simpl. destruct (negb (updated r1)); auto. apply IH; auto. lia.
+Qed.
+
+Lemma seq_loop_mono (run1 run2 : St -> schedule R F -> result) l
+  (Hl : Forall (fun x => body_le (fun s => run1 s x) (fun s => run2 s x)) l) : forall s acc x,
+  seq_loop run1 l s acc = Ok x -> seq_loop run2 l s acc = Ok x.
+Proof.
+  induction Hl as [|y l Hy Hl IH]; intros s acc x H; simpl in *; auto.
+  destruct (run1 s y) as [[s1 r1]| |] eqn:E; simpl in H; try discriminate.
+  rewrite (Hy _ _ E). simpl. auto.
+Qed.
+
+Theorem fuel_mono fuel fuel' (Hf : fuel <= fuel') : forall x s res,
+  exec fuel s x = Ok res -> exec fuel' s x = Ok res.
+Proof.
+  induction x as [b IH|n b IH|c|l IH] using schedule_ind'; intros s res H.
+  - rewrite exec_saturate in *. eapply saturate_loop_mono; eauto. exact IH.
+  - rewrite exec_repeat in *. eapply repeat_loop_mono; eauto. exact IH.
+  - exact H.
+  - rewrite exec_sequence in *.
+    eapply (seq_loop_mono (fun s x => exec fuel s x) (fun s x => exec fuel' s x)); [exact IH|exact H].
+Qed.
+
 (** * saturate: fixpoint and idempotence *)
 Theorem saturate_fix (Hq : quiescent step) fuel b s s' r :
   exec fuel s (Saturate b) = Ok (s', r) ->
